@@ -62,20 +62,17 @@ theorem len64_le_iff (x k : Nat) : len64 x ≤ k ↔ x < 2 ^ k := by
     have := Nat.log2_lt (n := x) (k := k) hx
     omega
 
-/-- what `CheckModuli`'s size test really enforces: `x < 2^(MaxModuliSize+1+slack)` -/
-theorem tooManyBits_false {slack x : Nat} (h : tooManyBits slack x = false) :
-    x ≠ 0 ∧ x < 2 ^ (MaxModuliSize + 1 + slack) := by
+/-- what `CheckModuli`'s size test enforces: `x < 2^61` -/
+theorem tooManyBits_false {x : Nat} (h : tooManyBits x = false) : x < 2 ^ 61 := by
   unfold tooManyBits at h
-  simp only [Bool.or_eq_false_iff, decide_eq_false_iff_not, not_lt] at h
-  refine ⟨h.1, ?_⟩
-  have := (len64_le_iff x (MaxModuliSize + 1 + slack)).mp (by omega)
-  exact this
+  simp only [decide_eq_false_iff_not, not_lt] at h
+  exact (len64_le_iff x 61).mp (by unfold MaxModuliSize at h; omega)
 
 /-! ### CheckModuli -/
 
 theorem checkModuli_none {o : Oracle} {q p : List Nat} (h : checkModuli o q p = none) :
-    (∀ x ∈ q, x ≠ 0 ∧ x < 2 ^ 62 ∧ o.isPrime x = true) ∧
-    (∀ x ∈ p, x ≠ 0 ∧ x < 2 ^ 63 ∧ o.isPrime x = true) := by
+    (∀ x ∈ q, x < 2 ^ 61 ∧ o.isPrime x = true) ∧
+    (∀ x ∈ p, x < 2 ^ 61 ∧ o.isPrime x = true) ∧ (q ++ p).Nodup := by
   unfold checkModuli at h
   split at h
   · cases h
@@ -89,17 +86,20 @@ theorem checkModuli_none {o : Oracle} {q p : List Nat} (h : checkModuli o q p = 
         split at h
         · cases h
         · rename_i h4
-          constructor
-          · intro x hx
-            have a := tooManyBits_false (firstIdx_none _ _ _ h1 x hx)
-            have b := firstIdx_none _ _ _ h2 x hx
-            simp only [Bool.not_eq_false'] at b
-            exact ⟨a.1, a.2, b⟩
-          · intro x hx
-            have a := tooManyBits_false (firstIdx_none _ _ _ h3 x hx)
-            have b := firstIdx_none _ _ _ h4 x hx
-            simp only [Bool.not_eq_false'] at b
-            exact ⟨a.1, a.2, b⟩
+          split at h
+          · rename_i h5
+            refine ⟨?_, ?_, allDistinct_nodup _ h5⟩
+            · intro x hx
+              have a := tooManyBits_false (firstIdx_none _ _ _ h1 x hx)
+              have b := firstIdx_none _ _ _ h2 x hx
+              simp only [Bool.not_eq_false'] at b
+              exact ⟨a, b⟩
+            · intro x hx
+              have a := tooManyBits_false (firstIdx_none _ _ _ h3 x hx)
+              have b := firstIdx_none _ _ _ h4 x hx
+              simp only [Bool.not_eq_false'] at b
+              exact ⟨a, b⟩
+          · cases h
 
 /-! ### ring construction -/
 
@@ -172,14 +172,13 @@ structure AcceptedFacts (o : Oracle) (logN : Int) (q p : List Nat) (rt : Nat) (a
   rt_eq : a.ringType = rt
   rt_ok : rt = 0 ∨ rt = 1
   q_ne : q ≠ []
-  q_nodup : q.Nodup
-  p_nodup : p.Nodup
+  qp_nodup : (q ++ p).Nodup
   q_prime : ∀ m ∈ q, o.isPrime m = true
   p_prime : ∀ m ∈ p, o.isPrime m = true
   q_ntt : ∀ m ∈ q, m % a.nthRoot = 1
   p_ntt : ∀ m ∈ p, m % a.nthRoot = 1
-  q_bits : ∀ m ∈ q, m < 2 ^ 62
-  p_bits : ∀ m ∈ p, m < 2 ^ 63
+  q_bits : ∀ m ∈ q, m < 2 ^ 61
+  p_bits : ∀ m ∈ p, m < 2 ^ 61
 
 theorem nthRoot_pow (a : Accepted) (h : a.ringType = 0 ∨ a.ringType = 1) :
     a.nthRoot = 2 ^ (a.logN + 1 + a.ringType) := by
@@ -229,14 +228,13 @@ theorem newParameters_ok {o : Oracle} {logN : Int} {q p : List Nat} {rt : Nat} {
                   rcases hrt with h | h <;> subst h <;> simp [Nat.pow_succ] <;> ring
                 have hnth : (Accepted.nthRoot ⟨logN.toNat, q, p, rt⟩) = 2 ^ (logN.toNat + 1 + rt) :=
                   nthRoot_pow _ hq.1
-                have hpfacts : p.Nodup ∧ ∀ m ∈ p, m % 2 ^ (logN.toNat + 1 + rt) = 1 := by
+                have hpfacts : ∀ m ∈ p, m % 2 ^ (logN.toNat + 1 + rt) = 1 := by
                   by_cases hpe : p.isEmpty = true
                   · have : p = [] := by simpa using hpe
                     subst this
-                    exact ⟨List.nodup_nil, by intro m hm; cases hm⟩
+                    intro m hm; cases hm
                   · simp only [hpe] at hrp
                     have hp := newRingFromType_none hrp
-                    refine ⟨hp.2.2.2.1, ?_⟩
                     intro m hm
                     have := (hp.2.2.2.2 m hm).2
                     rw [hroot rt hp.1] at this
@@ -250,14 +248,13 @@ theorem newParameters_ok {o : Oracle} {logN : Int} {q p : List Nat} {rt : Nat} {
                     rt_eq := rfl
                     rt_ok := hq.1
                     q_ne := hq.2.2.1
-                    q_nodup := hq.2.2.2.1
-                    p_nodup := hpfacts.1
-                    q_prime := fun m hm => (hcm'.1 m hm).2.2
-                    p_prime := fun m hm => (hcm'.2 m hm).2.2
+                    qp_nodup := hcm'.2.2
+                    q_prime := fun m hm => (hcm'.1 m hm).2
+                    p_prime := fun m hm => (hcm'.2.1 m hm).2
                     q_ntt := ?_
                     p_ntt := ?_
-                    q_bits := fun m hm => (hcm'.1 m hm).2.1
-                    p_bits := fun m hm => (hcm'.2 m hm).2.1 }
+                    q_bits := fun m hm => (hcm'.1 m hm).1
+                    p_bits := fun m hm => (hcm'.2.1 m hm).1 }
                 · intro m hm
                   rw [hnth]
                   have := (hq.2.2.2.2 m hm).2
@@ -265,7 +262,7 @@ theorem newParameters_ok {o : Oracle} {logN : Int} {q p : List Nat} {rt : Nat} {
                   exact and_mask_eq_one this
                 · intro m hm
                   rw [hnth]
-                  exact hpfacts.2 m hm
+                  exact hpfacts m hm
 
 /-- `NewParameters` is total: it never panics and never spins. -/
 theorem newParameters_total (o : Oracle) (logN : Int) (q p : List Nat) (rt : Nat) (w0 s0 : Bool) :
@@ -304,7 +301,7 @@ theorem newParametersFromLiteral_ok {o : Oracle} {fuel : Nat} {lit : Literal} {a
     · cases h
     · split at h
       · cases h
-      · simp only at h
+      · dsimp only at h
         split at h
         · cases h
         · cases h
@@ -420,29 +417,28 @@ theorem genAll_ne_panic (o : Oracle) (fuel r : Nat) (req : List Nat) :
     · rename_i h; exact absurd h (genPrimes_ne_panic _ _ _ _ _ _)
     · simp
 
-/-- `GenModuli` panics only through the negative shift count -/
-theorem genModuli_panic {o : Oracle} {fuel : Nat} {l : Int} {logQ logP : List Int}
-    (h : genModuli o fuel l logQ logP = .panic) : l < 0 := by
+/-- `GenModuli` never panics (its root order is range-checked before it is used as a shift count) -/
+theorem genModuli_ne_panic (o : Oracle) (fuel : Nat) (l : Int) (logQ logP : List Int) :
+    genModuli o fuel l logQ logP ≠ .panic := by
+  intro h
   unfold genModuli at h
   split at h
   · cases h
   · split at h
     · cases h
-    · dsimp only at h
-      split at h
+    · split at h
       · cases h
-      · split at h
-        · assumption
-        · split at h
-          · cases h
-          · cases h
-          · rename_i hp; exact absurd hp (genAll_ne_panic _ _ _ _ _)
-          · cases h
+      · dsimp only at h
+        split at h
+        · cases h
+        · cases h
+        · rename_i hp; exact absurd hp (genAll_ne_panic _ _ _ _ _)
+        · cases h
 
-/-- the literal constructor panics only when the root order passed to `GenModuli` is negative -/
-theorem newParametersFromLiteral_panic {o : Oracle} {fuel : Nat} {lit : Literal}
-    (h : newParametersFromLiteral o fuel lit = .panic) :
-    max (lit.logN + (if lit.ringType = 0 then 1 else 2)) lit.logNthRoot < 0 := by
+/-- the literal constructor never panics -/
+theorem newParametersFromLiteral_ne_panic (o : Oracle) (fuel : Nat) (lit : Literal) :
+    newParametersFromLiteral o fuel lit ≠ .panic := by
+  intro h
   unfold newParametersFromLiteral at h
   split at h
   · cases h
@@ -456,12 +452,14 @@ theorem newParametersFromLiteral_panic {o : Oracle} {fuel : Nat} {lit : Literal}
         · rename_i hg
           split at hg
           · split at hg
-            · split at hg
-              · cases hg
-              · cases hg
-              · rename_i hp; exact genModuli_panic hp
-              · cases hg
             · cases hg
+            · split at hg
+              · split at hg
+                · cases hg
+                · cases hg
+                · rename_i hp; exact absurd hp (genModuli_ne_panic _ _ _ _ _)
+                · cases hg
+              · cases hg
           · cases hg
         · cases h
         · rename_i q p _
@@ -506,13 +504,11 @@ theorem nodup_allDistinct : ∀ (l : List Nat), l.Nodup → allDistinct l = true
     simp only [Bool.and_eq_true, Bool.not_eq_true', List.contains_eq_mem, decide_eq_false_iff_not]
     exact ⟨this.1, ih this.2⟩
 
-theorem tooManyBits_eq_false {slack x : Nat} (h0 : x ≠ 0) (h : x < 2 ^ (MaxModuliSize + 1 + slack)) :
-    tooManyBits slack x = false := by
+theorem tooManyBits_eq_false {x : Nat} (h : x < 2 ^ 61) : tooManyBits x = false := by
   unfold tooManyBits
-  simp only [Bool.or_eq_false_iff, decide_eq_false_iff_not, not_lt]
-  refine ⟨h0, ?_⟩
-  have := (len64_le_iff x (MaxModuliSize + 1 + slack)).mpr h
-  omega
+  simp only [decide_eq_false_iff_not, not_lt]
+  have := (len64_le_iff x 61).mpr h
+  unfold MaxModuliSize; omega
 
 theorem isPow2_two_pow (k : Nat) : isPow2 (2 ^ k) = true := by
   unfold isPow2
@@ -525,10 +521,9 @@ structure Requirements (o : Oracle) (logN : Int) (q p : List Nat) (rt : Nat) : P
   logN_le : logN ≤ MaxLogN
   rt_ok : rt = 0 ∨ rt = 1
   q_ne : q ≠ []
-  q_nodup : q.Nodup
-  p_nodup : p.Nodup
-  q_ok : ∀ m ∈ q, o.isPrime m = true ∧ m % 2 ^ (logN.toNat + 1 + rt) = 1 ∧ m < 2 ^ 62
-  p_ok : ∀ m ∈ p, o.isPrime m = true ∧ m % 2 ^ (logN.toNat + 1 + rt) = 1 ∧ m < 2 ^ 63
+  qp_nodup : (q ++ p).Nodup
+  q_ok : ∀ m ∈ q, o.isPrime m = true ∧ m % 2 ^ (logN.toNat + 1 + rt) = 1 ∧ m < 2 ^ 61
+  p_ok : ∀ m ∈ p, o.isPrime m = true ∧ m % 2 ^ (logN.toNat + 1 + rt) = 1 ∧ m < 2 ^ 61
 
 theorem newRing_eq_none {o : Oracle} {k j : Nat} {ms : List Nat} (hk : 3 ≤ k) (hne : ms ≠ [])
     (hnd : ms.Nodup) (hok : ∀ m ∈ ms, o.isPrime m = true ∧ m % 2 ^ (k + j) = 1) :
@@ -557,28 +552,23 @@ theorem newRing_eq_none {o : Oracle} {k j : Nat} {ms : List Nat} (hk : 3 ≤ k) 
 theorem newParameters_complete {o : Oracle} {logN : Int} {q p : List Nat} {rt : Nat}
     (hreq : Requirements o logN q p rt) :
     newParameters o logN q p rt false false = .ok { logN := logN.toNat, q := q, p := p, ringType := rt } := by
-  obtain ⟨h1, h2, h3, h4, h5, h6, h7, h8⟩ := hreq
+  obtain ⟨h1, h2, h3, h4, h56, h7, h8⟩ := hreq
+  have h5 : q.Nodup := (List.nodup_append.mp h56).1
+  have h6 : p.Nodup := (List.nodup_append.mp h56).2.1
   unfold newParameters
   have hsz : checkSizeParams logN = none := by
     unfold checkSizeParams
     simp only [gt_iff_lt, Int.not_lt.mpr h2, Int.not_lt.mpr h1, if_false]
   have hcm : checkModuli o q p = none := by
     unfold checkModuli
-    have hq0 : ∀ m ∈ q, m ≠ 0 := by
-      intro m hm h; subst h
-      have := (h7 0 hm).2.1
-      rw [Nat.zero_mod] at this; cases this
-    have hp0 : ∀ m ∈ p, m ≠ 0 := by
-      intro m hm h; subst h
-      have := (h8 0 hm).2.1
-      rw [Nat.zero_mod] at this; cases this
-    rw [firstIdx_eq_none _ q 0 (fun m hm => tooManyBits_eq_false (hq0 m hm) (h7 m hm).2.2)]
+    rw [firstIdx_eq_none _ q 0 (fun m hm => tooManyBits_eq_false (h7 m hm).2.2)]
     simp only
     rw [firstIdx_eq_none _ q 0 (fun m hm => by simp [(h7 m hm).1])]
     simp only
-    rw [firstIdx_eq_none _ p 0 (fun m hm => tooManyBits_eq_false (hp0 m hm) (h8 m hm).2.2)]
+    rw [firstIdx_eq_none _ p 0 (fun m hm => tooManyBits_eq_false (h8 m hm).2.2)]
     simp only
     rw [firstIdx_eq_none _ p 0 (fun m hm => by simp [(h8 m hm).1])]
+    simp only [nodup_allDistinct _ h56, if_true]
   have hk : 3 ≤ logN.toNat := by unfold MinLogN at h1; omega
   have hring : ∀ ms : List Nat, ms ≠ [] → ms.Nodup →
       (∀ m ∈ ms, o.isPrime m = true ∧ m % 2 ^ (logN.toNat + 1 + rt) = 1) →
@@ -615,18 +605,48 @@ theorem requirements_of_ok {o : Oracle} {logN : Int} {q p : List Nat} {rt : Nat}
   rw [hl, f.rt_eq] at hnth
   exact
     { logN_ge := f.logN_ge, logN_le := f.logN_le, rt_ok := f.rt_ok, q_ne := f.q_ne,
-      q_nodup := f.q_nodup, p_nodup := f.p_nodup,
+      qp_nodup := f.qp_nodup,
       q_ok := fun m hm => ⟨f.q_prime m hm, by rw [← hnth]; exact f.q_ntt m hm, f.q_bits m hm⟩,
       p_ok := fun m hm => ⟨f.p_prime m hm, by rw [← hnth]; exact f.p_ntt m hm, f.p_bits m hm⟩ }
 
 /-! ### bgv.NewParameters -/
+
+theorem qmulLoop_avoid (o : Oracle) (fuel : Nat) (avoid : List Nat) :
+    ∀ (outer need : Nat) (g : Gen) (ps : List Nat), qmulLoop o fuel avoid outer need g = .ok ps →
+      ∀ m ∈ ps, m ∉ avoid := by
+  intro outer
+  induction outer with
+  | zero => intro need g ps h; simp [qmulLoop] at h
+  | succ n ih =>
+    intro need g ps h
+    unfold qmulLoop at h
+    split at h
+    · simp only [Res.ok.injEq] at h; subst h; intro m hm; cases hm
+    · split at h
+      · rename_i g' p _
+        split at h
+        · exact ih _ _ _ h
+        · rename_i hnot
+          split at h
+          · rename_i ps' hrec
+            simp only [Res.ok.injEq] at h
+            subst h
+            intro m hm
+            rcases List.mem_cons.mp hm with rfl | hm
+            · simpa using hnot
+            · exact ih _ _ _ hrec m hm
+          · rename_i r hr
+            rw [h] at hr
+            exact absurd rfl (hr ps)
+      all_goals cases h
 
 /-- what acceptance by `bgv.NewParameters` establishes -/
 theorem bgvNew_ok {o : Oracle} {fuel : Nat} {a : Accepted} {t : Nat} {b : BgvAccepted}
     (h : bgvNew o fuel a t = .ok b) :
     t ≠ 0 ∧ t ∉ a.q ∧ t ≤ a.q.headD 0 ∧ o.isPrime t = true ∧ 16 ≤ cyclotomicOrder t ∧
     b.nT = min a.n (cyclotomicOrder t / 2) ∧ MinRingDegree ≤ b.nT ∧ t &&& (2 * b.nT - 1) = 1 ∧
-    b.qMul.Nodup ∧ b.qMul ≠ [] ∧ ∀ m ∈ b.qMul, o.isPrime m = true ∧ m &&& (2 * a.n - 1) = 1 := by
+    b.qMul.Nodup ∧ b.qMul ≠ [] ∧ (∀ m ∈ b.qMul, o.isPrime m = true ∧ m &&& (2 * a.n - 1) = 1) ∧
+    ∀ m ∈ b.qMul, m ∉ a.q := by
   unfold bgvNew at h
   split at h
   · cases h
@@ -642,7 +662,7 @@ theorem bgvNew_ok {o : Oracle} {fuel : Nat} {a : Accepted} {t : Nat} {b : BgvAcc
         · cases h
         · cases h
         · cases h
-        · rename_i primes _
+        · rename_i primes hgen
           split at h
           · cases h
           · rename_i hqm
@@ -658,6 +678,6 @@ theorem bgvNew_ok {o : Oracle} {fuel : Nat} {a : Accepted} {t : Nat} {b : BgvAcc
                 have r2 := newRing_none hrt
                 have ht := r2.2.2.2 t (List.mem_singleton.mpr rfl)
                 refine ⟨ht0, by simpa using htq, by omega, ht.1, by omega, rfl, r2.1, ht.2,
-                  r1.2.2.1, r1.2.1, r1.2.2.2⟩
+                  r1.2.2.1, r1.2.1, r1.2.2.2, qmulLoop_avoid _ _ _ _ _ _ _ hgen⟩
 
 end Lattigo.Params
